@@ -46,6 +46,12 @@ def ec_mul(k, P):
     return R
 
 
+def strip_zext_t(t):
+    while isinstance(t, tm.T) and t.op == 'zext':
+        t = t.args[0]
+    return t
+
+
 def global_scalar(m, name):
     """plain value of a package-level *Scalar (value model)"""
     t = m.load(m.load(m.global_ptr(ROOT + name)))
